@@ -345,3 +345,7 @@ def sample_view(sc, r):
     return {"api": sc["api"], "end": sc.get("end"), "frames": [[f["fin"], f["op"], len(f["hex"]) // 2] for f in sc["frames"]],
             "cuts": sc.get("cuts"), "timeouts_before_offset": sc.get("gaps"), "read_caps": sc.get("read_caps"), "nonblocking": sc.get("nonblocking"),
             "timeouts_observed": r.probes.get("timeouts_observed")}
+
+
+# round 7 summary for the evidence file
+RULE = RULE + '  Round 7: 10 % of the seeded scenarios with enableTrace on; the one-segment baseline itself must connect (clause valid_handshake_refused), so that a change that breaks every run alike cannot compare equal.'
